@@ -17,9 +17,12 @@ import warnings
 
 import common
 
+from props import fbd
+
 ID = "C07"
-LEAN_MODULES = ["QProps.C07", "QModel.SerialIO", "QProps.C07m", "QProps.C07t"]
+LEAN_MODULES = ["QProps.C07", "QModel.SerialIO", "QProps.C07m", "QProps.C07t", *fbd.LEAN_MODULES_C07]
 THEOREMS = [
+    *fbd.THEOREMS_C07,
     "C07.specs_wf",
     "C07.restart_file_is_to_dict",
     "C07.load_save_equiv",
@@ -596,4 +599,4 @@ class RestartModel(common.Suite):
 
 
 def suites(tier):
-    return [RestartModel(), Restart()]
+    return [RestartModel(), Restart(), fbd.RestartView()]
